@@ -103,4 +103,59 @@ def stopReturns (cfg : Cfg) (kind : Nat) (evs : List PeerEv) : Bool :=
   let s := (evs ++ [PeerEv.close]).foldl (step cfg) (St.init kind)
   !(cfg.unregisterBlocks && s.parked) && !s.handlerBlocked
 
+/-! ### the muxer's hand-over to one protocol and `UnregisterProtocol`, step by step
+
+  muxer/muxer.go: `readLoop` takes `recvChan.mu`, then `select { doneChan | closing | ch <- seg }`
+  (`closing` exists only after the repair); the receiver channel has capacity 10.
+  `UnregisterProtocol` (from `Protocol.Stop`): `close(closing)` (after the repair), then
+  `recvChan.mu.Lock()`, close the channel, remove the mapping.
+  The protocol's own read loop drains the channel until the protocol stops. -/
+
+structure MSt where
+  fixedMux : Bool
+  cap : Nat
+  chan : Nat           -- segments queued in the receiver's channel
+  held : Bool          -- the read loop holds recvChan.mu, blocked handing a segment to the full channel
+  draining : Bool      -- the protocol still reads its channel
+  closing : Bool       -- UnregisterProtocol has signalled `closing`
+  unreg : Nat          -- UnregisterProtocol: 0 not called, 1 waiting for recvChan.mu, 2 done
+  onWire : Nat         -- segments for this protocol still on the connection
+  eofSeen : Bool       -- the read loop has noticed that the peer is gone
+deriving Repr, DecidableEq
+
+def MSt.init (fixedMux : Bool) (onWire : Nat) : MSt :=
+  { fixedMux, cap := 10, chan := 0, held := false, draining := true, closing := false, unreg := 0,
+    onWire, eofSeen := false }
+
+inductive MAct
+  | read          -- the muxer's read loop reads the next segment and starts handing it over
+  | drain         -- the protocol takes a segment from its channel
+  | stop          -- the protocol stops (error / Stop()): it no longer drains and calls UnregisterProtocol
+  | wake          -- the blocked hand-over notices `closing`, drops the segment, releases the mutex
+  | finishUnreg   -- UnregisterProtocol gets recvChan.mu and completes
+  | eof           -- the read loop, reading the connection, sees that the peer has gone
+deriving Repr, DecidableEq
+
+def mstep (t : MSt) : MAct → Option MSt
+  | .read =>
+    if !t.held && decide (t.onWire > 0) && decide (t.unreg < 2) then
+      if t.chan < t.cap then some { t with chan := t.chan + 1, onWire := t.onWire - 1 }
+      else some { t with held := true, onWire := t.onWire - 1 }
+    else none
+  | .drain =>
+    if t.draining && decide (t.chan > 0) then
+      if t.held then some { t with held := false }      -- the waiting segment takes the free slot
+      else some { t with chan := t.chan - 1 }
+    else none
+  | .stop => if t.unreg = 0 then some { t with draining := false, closing := t.fixedMux, unreg := 1 } else none
+  | .wake => if t.held && t.closing then some { t with held := false } else none
+  | .finishUnreg => if t.unreg = 1 ∧ t.held = false then some { t with unreg := 2 } else none
+  | .eof => if !t.held && decide (t.onWire = 0) then some { t with eofSeen := true } else none
+
+def mrun (t : MSt) : List MAct → Option MSt
+  | [] => some t
+  | a :: as => match mstep t a with
+    | some t' => mrun t' as
+    | none => none
+
 end GV.Model.Shutdown
